@@ -2,7 +2,7 @@
 EXTENDS LeftRight, TraceBase
 VARIABLE l
 TInit == l = 1 /\ InitWith(<<>>) /\ TLCSet(1, 0)
-Skip == LifeKinds \cup {"blocked", "hget", "hrel", "final"}
+Skip == LifeKinds \cup {"blocked", "hget", "hrel", "final", "starved", "soloyield"}
 TNext ==
     /\ l <= Len(Tr)
     /\ l' = l + 1
